@@ -59,7 +59,7 @@ pub fn gen_dict_program(t: &mut Tape) -> DictProgram {
     for a in 0..narr {
         // key family: the plain pool; keys that collide under truncation,
         // case folding or trimming; or a big dictionary
-        let family = t.weighted(&[6, 2, 1, 1]);
+        let family = t.weighted(&[6, 2, 1, 1, 1]);
         let mut keys: Vec<String> = Vec::new();
         match family {
             0 => {
@@ -97,6 +97,27 @@ pub fn gen_dict_program(t: &mut Tape) -> DictProgram {
                     }
                 }
             }
+            4 => {
+                // subscripts that are numbers but no positions (not a number,
+                // negative, fractional), held in variables and used more than
+                // once, among ordinary keys
+                features.push("numeric subscripts that are no positions");
+                if !src.contains("into the void\n") {
+                    src.push_str("Put 0 over 0 into the void\nPut 0 minus 1 into the debt\nPut 0.5 into the half\nPut 0 minus 2.5 into the depth\nPut 1.5 into the rest\n");
+                }
+                const ODD: &[&str] = &["the void", "the debt", "the half", "the depth", "the rest"];
+                let nkeys = 3 + t.draw(5) as usize;
+                for _ in 0..nkeys {
+                    if t.chance(2, 3) {
+                        keys.push(ODD[t.weighted(&[4, 1, 1, 1, 1])].to_string());
+                    } else {
+                        let k = KEYS[t.draw(KEYS.len() as u32) as usize].to_string();
+                        if !keys.contains(&k) {
+                            keys.push(k);
+                        }
+                    }
+                }
+            }
             _ => {
                 features.push("dictionary with more than 16 keys");
                 let nkeys = 17 + t.draw(24) as usize;
@@ -112,7 +133,7 @@ pub fn gen_dict_program(t: &mut Tape) -> DictProgram {
         let same_value = family == 1 && t.chance(1, 2);
         let mut used: Vec<String> = Vec::new();
         for key in keys {
-            if used.contains(&key) {
+            if used.contains(&key) && family != 4 {
                 continue;
             }
             used.push(key.clone());
@@ -765,7 +786,7 @@ impl Property for C10 {
     fn evidence_info(&self) -> EvidenceInfo {
         EvidenceInfo {
             level: "exploration",
-            rule: "A scenario is a generated program (arrays given 2-6 non-numeric keys with string/non-string/nested values, then joined, printed, copied, passed to functions, compared, used as keys, cast, built up; some with lint findings, parse errors, listens; a third of the scenarios are C08-style say/listen scripts instead) plus an input, observed under K configurations (quick 8, thorough 32) that vary the dictionary hasher seed (hook), re-parse vs run_using, worker thread vs fresh thread (new OS-random keys for any un-hooked map), heap layout, and benign stream schedules; a sample of scenarios is also run as processes of the hooked binary with different hasher seeds, environments and stdin kinds. All observations (output bytes, Ok/Err, error text, parse error text, lint report; for processes stdout, SGR-stripped stderr, exit status) must be identical. evaluations = in-process executions + process spawns. A scenario is non-trivial when its runs produced at least two distinct raw dictionary iteration orders (measured by the probe in the hook), i.e. the perturbation really reached a dictionary; distinct = distinct program text + input.".into(),
+            rule: "A scenario is a generated program (arrays given 2-6 non-numeric keys with string/non-string/nested values, then joined, printed, copied, passed to functions, compared, used as keys, cast, built up; some with lint findings, parse errors, listens; a third of the scenarios are C08-style say/listen scripts instead) plus an input, observed under K configurations (quick 8, thorough 32) that vary the dictionary hasher seed (hook), re-parse vs run_using, worker thread vs fresh thread (new OS-random keys for any un-hooked map), heap layout, and benign stream schedules; a sample of scenarios is also run as processes of the hooked binary: `exec` three times with different hasher seeds, environments and stdin kinds, and `lint` and `parse` six times each (the keys a process draws from the operating system for un-hooked hash tables differ between them). All observations (output bytes, Ok/Err, error text, parse error text, lint report; for processes stdout, SGR-stripped stderr, exit status) must be identical. evaluations = in-process executions + process spawns. A scenario is non-trivial when its runs produced at least two distinct raw dictionary iteration orders (measured by the probe in the hook), i.e. the perturbation really reached a dictionary; distinct = distinct program text + input.".into(),
             assumptions: vec![
                 "The hooked HashMap (src/verif_seams.rs) stands in for std's RandomState-keyed map: same hashbrown table, different key source; maps not behind the hook (lexer keyword table) are perturbed only by the fresh-thread and process arms, whose seeds the harness does not control.".into(),
                 "Debug renderings are not compared (not messages); NaN-safe comparison by text.".into(),
@@ -797,7 +818,7 @@ impl Property for C10 {
             let key = hash_bytes(source.as_bytes());
             let mut res = ScenarioResult {
                 violation: None,
-                executions: 3,
+                executions: 15,
                 steps: 3,
                 key,
                 nontrivial: false,
@@ -806,10 +827,10 @@ impl Property for C10 {
                 digest: key,
             };
             stats.inc("probe.long_running_loop_as_processes");
-            match process_arm(&source, b"", tape, stats) {
-                Ok(Some((detail, render, h))) => {
+            match process_arm(&source, b"", None, tape, stats) {
+                Ok(Some((rule, detail, render, h))) => {
                     res.violation = Some(Violation {
-                        rule: "C10.D2-processes-differ".into(),
+                        rule: rule.into(),
                         detail,
                         render,
                         log_hash: h,
@@ -836,6 +857,9 @@ impl Property for C10 {
             let p = gen_dict_program(tape);
             (p.source, p.input, p.features)
         };
+        if std::env::var("VERIF_DUMP").is_ok() {
+            eprintln!("--- program ---\n{}--- input ---\n{}---", source, render_bytes(&input));
+        }
         let key = hash_combine(hash_bytes(source.as_bytes()), hash_bytes(&input));
         let mut res = ScenarioResult {
             violation: None,
@@ -984,18 +1008,32 @@ impl Property for C10 {
         }
         if base.result.starts_with("Err") {
             stats.inc("probe.runtime_error");
+            // which kind of error (the message up to the first value in it)
+            let kind: String = base.result[5..]
+                .chars()
+                .take_while(|c| c.is_ascii_alphabetic() || *c == ' ')
+                .collect();
+            let kind: Vec<&str> = kind.split_whitespace().take(3).collect();
+            stats.inc(&format!("count.runtime_error.{}", kind.join("_")));
+            if let Some(q) = base.result.find(" value \"") {
+                let v = &base.result[q + 8..];
+                if v.trim_end_matches('"').parse::<f64>().is_ok() {
+                    stats.inc("probe.operation_refused_on_numeric_looking_text");
+                }
+            }
         }
         res.histories.push(hash_combine(base.hash(), orders.len() as u64));
 
-        // process arm
+        // process arm: the whole of it for a sample of the scenarios, one
+        // fresh process (rule D4) for every scenario
         let nth = if ctx.tier == Tier::Thorough { 8 } else { 16 };
-        if ctx.index % nth == 0 {
-            match process_arm(&source, &input, tape, stats) {
-                Ok(Some((detail, render, h))) => {
+        if ctx.index % nth != 0 {
+            match fresh_process_only(&source, &input, &base, stats) {
+                Ok(Some((rule, detail, render, h))) => {
                     let mut tags: Vec<String> = features.iter().map(|f| f.to_string()).collect();
                     tags.push("process-arm".into());
                     res.violation = Some(Violation {
-                        rule: "C10.D2-processes-differ".into(),
+                        rule: rule.into(),
                         detail,
                         render,
                         log_hash: h,
@@ -1004,7 +1042,31 @@ impl Property for C10 {
                     return res;
                 }
                 Ok(None) => {
-                    res.executions += 3;
+                    res.executions += 1;
+                    res.steps += 1;
+                }
+                Err(e) => {
+                    eprintln!("HARNESS ERROR (process arm): {}", e);
+                    std::process::exit(2);
+                }
+            }
+        }
+        if ctx.index % nth == 0 {
+            match process_arm(&source, &input, Some(&base), tape, stats) {
+                Ok(Some((rule, detail, render, h))) => {
+                    let mut tags: Vec<String> = features.iter().map(|f| f.to_string()).collect();
+                    tags.push("process-arm".into());
+                    res.violation = Some(Violation {
+                        rule: rule.into(),
+                        detail,
+                        render,
+                        log_hash: h,
+                        tags,
+                    });
+                    return res;
+                }
+                Ok(None) => {
+                    res.executions += 15;
                     res.steps += 3;
                 }
                 Err(e) => {
@@ -1027,16 +1089,160 @@ impl Property for C10 {
     }
 }
 
-fn process_arm(
+/// A fresh `rrss exec` process against what this (long-lived) process
+/// observed for the same program and input through the library: the same
+/// output bytes, the same success or error, the same error message.
+fn fresh_process_disagrees(obs: &Obs, r: &procworld::ProcResult) -> Option<String> {
+    if r.timed_out || obs.result.starts_with("PANIC") || obs.parse == "?" {
+        return None;
+    }
+    if obs.result.contains("simulated: ") {
+        return None;
+    }
+    let stderr = String::from_utf8_lossy(&r.stderr).into_owned();
+    if let Some(msg) = obs.parse.strip_prefix("Err: ") {
+        // (the exit status is not compared: this tool reports errors in
+        // programs on standard error and still exits with 0)
+        if !stderr.contains(msg) {
+            return Some(format!(
+                "in this process the program does not parse ({:?}); a fresh process does not report that on standard error",
+                msg
+            ));
+        }
+        return None;
+    }
+    if r.stdout != obs.output {
+        return Some(format!(
+            "a fresh process writes {} bytes to standard output, the same program and input run in this process wrote {} bytes (or other bytes)",
+            r.stdout.len(),
+            obs.output.len()
+        ));
+    }
+    match obs.result.strip_prefix("Err: ") {
+        Some(msg) => {
+            if !stderr.contains(msg) {
+                return Some(format!(
+                    "run in this process the program fails with {:?}; a fresh process reports something else on standard error",
+                    msg
+                ));
+            }
+        }
+        None => {
+            let low = stderr.to_lowercase();
+            if r.code != Some(0) || low.contains("runtime error") || low.contains("parse error") {
+                return Some(format!(
+                    "run in this process the program succeeds; a fresh process exits with {:?} and {} bytes on standard error",
+                    r.code,
+                    r.stderr.len()
+                ));
+            }
+        }
+    }
+    None
+}
+
+fn fresh_process_only(
     source: &str,
     input: &[u8],
-    tape: &mut Tape,
+    obs: &Obs,
     stats: &mut Stats,
-) -> Result<Option<(String, J, u64)>, String> {
+) -> Result<Option<(&'static str, String, J, u64)>, String> {
     let scratch = Scratch::new().map_err(|e| e.to_string())?;
     let file = scratch
         .file("prog.rock", source.as_bytes())
         .map_err(|e| e.to_string())?;
+    let spec = ProcSpec {
+        args: vec!["exec".into(), file.clone().into_os_string()],
+        env: vec![("RRSS_VERIF_HASH_SEED".to_string(), "0".to_string())],
+        cwd: scratch.path.clone(),
+        stdin: input.to_vec(),
+        stdin_kind: StdinKind::File,
+        stdin_cuts: Vec::new(),
+        shared_out_err: false,
+        removed_cwd: false,
+        stalled_stdout_reader_ms: 0,
+    };
+    let mut r = procworld::run(&spec, &scratch, "c10-fresh")?;
+    r.stderr = procworld::strip_sgr(&r.stderr);
+    stats.inc("fault.configured.process_spawn");
+    stats.inc("fault.fired.process_spawn");
+    stats.inc("count.process_arm.fresh_process_only");
+    Ok(fresh_process_disagrees(obs, &r).map(|detail| {
+        (
+            "C10.D4-fresh-process-differs-from-long-lived-process",
+            detail,
+            J::obj(vec![
+                ("program", J::s(source.to_string())),
+                ("input", J::S(render_bytes(input))),
+                ("in_process_observation", obs.to_json()),
+                ("process", J::s("rrss exec prog.rock, standard input from a file, RRSS_VERIF_HASH_SEED=0")),
+                ("process_result", r.to_json()),
+            ]),
+            hash_combine(hash_combine(hash_bytes(source.as_bytes()), hash_bytes(input)), 4),
+        )
+    }))
+}
+
+fn process_arm(
+    source: &str,
+    input: &[u8],
+    in_process: Option<&Obs>,
+    tape: &mut Tape,
+    stats: &mut Stats,
+) -> Result<Option<(&'static str, String, J, u64)>, String> {
+    let scratch = Scratch::new().map_err(|e| e.to_string())?;
+    let file = scratch
+        .file("prog.rock", source.as_bytes())
+        .map_err(|e| e.to_string())?;
+    // linting and parsing in separate processes: the report and the printed
+    // tree are functions of the source text alone
+    for sub in ["lint", "parse"] {
+        let mut first: Option<procworld::ProcResult> = None;
+        // (what a process draws from the operating system for its own hash
+        // tables is not behind a seam: six processes make a dependence on it
+        // show, and show again on replay, with high probability)
+        for i in 0..6 {
+            let spec = ProcSpec {
+                args: vec![sub.into(), file.clone().into_os_string()],
+                env: vec![("RRSS_VERIF_HASH_SEED".to_string(), (i * 7919).to_string())],
+                cwd: scratch.path.clone(),
+                stdin: Vec::new(),
+                stdin_kind: StdinKind::DevNull,
+                stdin_cuts: Vec::new(),
+                shared_out_err: false,
+                removed_cwd: false,
+                stalled_stdout_reader_ms: 0,
+            };
+            let mut r = procworld::run(&spec, &scratch, &format!("c10-{}-{}", sub, i))?;
+            r.stderr = procworld::strip_sgr(&r.stderr);
+            r.stdout = procworld::strip_sgr(&r.stdout);
+            if r.code == Some(101) {
+                // a panic message carries the thread id of the process
+                r.stderr.clear();
+            }
+            stats.inc("fault.configured.process_spawn");
+            stats.inc("fault.fired.process_spawn");
+            stats.inc(&format!("count.process_arm.{}", sub));
+            match &first {
+                None => first = Some(r),
+                Some(b) => {
+                    if *b != r {
+                        return Ok(Some((
+                            "C10.D2-processes-differ",
+                            format!("two processes running `rrss {} FILE` on the same file differ (stdout/stderr/exit status)", sub),
+                            J::obj(vec![
+                                ("program", J::s(source.to_string())),
+                                ("subcommand", J::s(sub)),
+                                ("result_a", b.to_json()),
+                                ("result_b", r.to_json()),
+                            ]),
+                            hash_combine(hash_bytes(source.as_bytes()), hash_bytes(sub.as_bytes())),
+                        )));
+                    }
+                }
+            }
+        }
+    }
     let mut base: Option<(procworld::ProcResult, J)> = None;
     for i in 0..3 {
         let hs = if i == 0 { 0 } else { 1 + tape.draw(u32::MAX - 1) as u64 };
@@ -1056,6 +1262,7 @@ fn process_arm(
             stdin_kind: if i == 1 { StdinKind::Pipe } else { StdinKind::File },
             shared_out_err: false,
             removed_cwd: false,
+            stdin_cuts: Vec::new(),
             stalled_stdout_reader_ms: 0,
         };
         let mut r = procworld::run(&spec, &scratch, &format!("c10-{}", i))?;
@@ -1067,11 +1274,28 @@ fn process_arm(
             ("env", J::A(spec.env.iter().map(|(k, v)| J::s(format!("{}={}", k, v))).collect())),
             ("stdin_kind", J::s(format!("{:?}", spec.stdin_kind))),
         ]);
+        if let (0, Some(obs)) = (i, in_process) {
+            if let Some(detail) = fresh_process_disagrees(obs, &r) {
+                return Ok(Some((
+                    "C10.D4-fresh-process-differs-from-long-lived-process",
+                    detail,
+                    J::obj(vec![
+                        ("program", J::s(source.to_string())),
+                        ("input", J::S(render_bytes(input))),
+                        ("in_process_observation", obs.to_json()),
+                        ("process", spec_json),
+                        ("process_result", r.to_json()),
+                    ]),
+                    hash_combine(hash_combine(hash_bytes(source.as_bytes()), hash_bytes(input)), 4),
+                )));
+            }
+        }
         match &base {
             None => base = Some((r, spec_json)),
             Some((b, bj)) => {
                 if *b != r {
                     return Ok(Some((
+                        "C10.D2-processes-differ",
                         format!("process #{} differs from process #0 (stdout/stderr/exit status)", i),
                         J::obj(vec![
                             ("program", J::s(source.to_string())),
